@@ -35,7 +35,7 @@ pub struct G<'t, 'b> {
     next_bid: Bid,
     next_tyvar: TyVar,
     budget: isize,
-    scope: Vec<(Bid, VTy)>,
+    pub scope: Vec<(Bid, VTy)>,
     vvars: Vec<TyVar>,
     cvars: Vec<TyVar>,
     pub feats: BTreeMap<&'static str, u32>,
@@ -68,7 +68,7 @@ impl<'t, 'b> G<'t, 'b> {
     fn feat(&mut self, f: &'static str) {
         *self.feats.entry(f).or_insert(0) += 1;
     }
-    fn bid(&mut self) -> Bid {
+    pub fn bid(&mut self) -> Bid {
         self.next_bid += 1;
         self.next_bid - 1
     }
@@ -227,7 +227,7 @@ impl<'t, 'b> G<'t, 'b> {
         }
     }
 
-    fn printable(&self, t: &VTy) -> bool {
+    pub fn printable(&self, t: &VTy) -> bool {
         match t {
             | VTy::Int(_) | VTy::Str | VTy::Char | VTy::Unit | VTy::Data(_) => true,
             | VTy::Prod(items) => items.iter().all(|i| self.printable(i)),
@@ -517,7 +517,7 @@ impl<'t, 'b> G<'t, 'b> {
     }
 
     /// Print a value (OS context): renders `v : a` observably, then continues with `k`.
-    fn print_val(&mut self, v: Val, a: &VTy, k: Comp, depth: usize) -> Comp {
+    pub fn print_val(&mut self, v: Val, a: &VTy, k: Comp, depth: usize) -> Comp {
         let thunk = |c: Comp| Val::Thunk(Box::new(c));
         match a {
             | VTy::Str => self.call_host(HostOp::WriteLine, None, vec![v, thunk(k)]),
@@ -1058,4 +1058,35 @@ pub fn gen_program(tape: &[u8], cfg: &Cfg) -> (Program, BTreeMap<&'static str, u
     let main = g.gen_comp(&CTy::OS, depth);
     let feats = g.feats.clone();
     (g.finish(main), feats)
+}
+
+/// A program whose main starts with `k` value/thunk definitions (each may use the earlier ones)
+/// followed by an OS body: the definitions are printed as `that` contributions of one block.
+pub fn gen_block_program(tape: &[u8], cfg: &Cfg) -> (Program, usize, BTreeMap<&'static str, u32>) {
+    let mut t = Tape::new(tape);
+    let mut g = G::new(&mut t, cfg.clone());
+    g.gen_decls();
+    let k = 2 + g.t.below(5);
+    let mut defs: Vec<(Bid, VTy, Val)> = vec![];
+    for _ in 0..k {
+        let a = if g.t.chance(90) { VTy::Thk(Box::new(g.gen_cty(2))) } else { g.gen_vty(2) };
+        let v = g.gen_val(&a, 3);
+        let b = g.bid();
+        g.scope.push((b, a.clone()));
+        defs.push((b, a, v));
+    }
+    let depth = g.cfg.depth.saturating_sub(1);
+    // make the body use the definitions: print every printable one first
+    let mut body = g.gen_comp(&CTy::OS, depth);
+    for (b, a, _) in defs.iter().rev() {
+        if g.printable(a) {
+            body = g.print_val(Val::Var(*b), a, body, 1);
+        }
+    }
+    let mut main = body;
+    for (b, a, v) in defs.into_iter().rev() {
+        main = Comp::Let(Pat::Var(b), a, v, Box::new(main));
+    }
+    let feats = g.feats.clone();
+    (g.finish(main), k, feats)
 }
